@@ -32,7 +32,7 @@ def c20(tier, replay=None):
     wd = scratch_dir("errlist")
     trace = os.path.join(wd, "trace.ndjson")
     with open(trace, "w") as f:
-        f.write(json.dumps({"codes": codes, "nerr": nerr, "msgs": [m.lower() for m in msgs]}) + "\n")
+        f.write(json.dumps({"codes": codes, "nerr": nerr, "slot": int(r.outs[0].get("slot", 80)), "msgs": [m.lower() for m in msgs]}) + "\n")
     out, st, wd2 = run_tlc("CifErrlist", CFG, "errlist", workers=1, env={"TRACE": trace}, timeout=300)
     bad, count = None, 0
     for tag, o in iter_tlc_json(out, ("BAD", "COUNT")):
